@@ -101,12 +101,29 @@ pub fn replay_iter(rep: &mut Report, rec: &J) {
 	let mut it = s.iter();
 	let mut yielded = vec![];
 	for h in rec["hist"].as_array().unwrap() {
-		let y = if h == "f" { it.next() } else { it.next_back() };
+		let y = match h.as_str().unwrap() {
+			"f" => it.next(),
+			"b" => it.next_back(),
+			"n1" => it.nth(1),
+			"n2" => it.nth(2),
+			"m1" => it.nth_back(1),
+			"m2" => it.nth_back(2),
+			other => tool_error(&format!("unknown iterator step {other}")),
+		};
 		yielded.push(json!(y.map(kind_no).unwrap_or(0)));
 	}
 	let (lo, hi) = it.size_hint();
-	let obs = json!({"yielded": yielded, "size_lo": lo, "size_hi": hi, "len": it.len()});
-	let exp = json!({"yielded": rec["yielded"], "size_lo": rec["size"], "size_hi": rec["size"], "len": rec["size"]});
+	let k0 = |k: Option<Kind>| k.map(kind_no).unwrap_or(0);
+	let cons = json!({"fwd": it.collect::<Vec<_>>().into_iter().map(kind_no).collect::<Vec<_>>(), "bwd": it.rev().map(kind_no).collect::<Vec<_>>(),
+		"count": it.count(), "last": k0(it.last()), "min": k0(Iterator::min(it)), "max": k0(Iterator::max(it))});
+	// fold / for-loop / by_ref routes see the same elements
+	let mut via_fold = vec![];
+	it.fold((), |_, k| via_fold.push(kind_no(k)));
+	let mut via_rfold = vec![];
+	it.rfold((), |_, k| via_rfold.push(kind_no(k)));
+	let obs = json!({"yielded": yielded, "size_lo": lo, "size_hi": hi, "len": it.len(), "cons": cons, "fold": via_fold, "rfold": via_rfold});
+	let exp = json!({"yielded": rec["yielded"], "size_lo": rec["size"], "size_hi": rec["size"], "len": rec["size"], "cons": rec["cons"],
+		"fold": rec["cons"]["fwd"], "rfold": rec["cons"]["bwd"]});
 	rep.count("kind_calls");
 	if obs != exp {
 		rep.mismatch("C20.iter", json!({"what": "iteration differs from the set's ascending order / remaining size", "vector": rec, "observed": obs}));
